@@ -8,7 +8,7 @@ IMPL = "C06_impl.py"
 COQ_HEADER = "From Coq Require Import ZArith List. Import ListNotations.\nFrom FV Require Import base.Util model.Loop model.Stop."
 RULE = ("placed scenes (PML/PEC/periodic, plane + dipole sources with switches, field/phasor/energy detectors with arbitrary switches): "
         "one run_fdtd vs chains of custom_fdtd_forward over random split points (incl. empty and single-step segments; Python-int bounds, concrete jax-array bounds and a jitted runner with traced bounds), re-run from the returned "
-        "arrays, reset(); model: step counters of every segment; predicate: fields, psi and detector states equal to 1e-12 relative")
+        "arrays (plain, and under reversible(0 / 2 checkpoints) and checkpointed gradient strategies: fresh run and a second run from the returned container), reset(); model: step counters of every segment; predicate: fields, psi and detector states equal to 1e-12 relative")
 ASSUMPTIONS = ["field values are compared between implementation runs (predicate); the per-step update itself is modelled in C01/C02",
                "the recording-state retention of reset() is not exercised"]
 TRUSTED = ["correspondence on step counters (exact Z)"]
@@ -53,7 +53,8 @@ def gen_cases(ctx):
                 pts = sorted(ctx.rng.choice(range(0, T + 1)) for _ in range(k)) + [T]
                 splits.append(pts)
             splits.append(list(range(1, T + 1)))
-            cases.append({"T": T, "spec": scene(ctx.rng, T), "splits": splits})
+            grads = [{"method": "reversible", "n": 0}, {"method": "reversible", "n": max(0, min(2, T - 1))}, {"method": "checkpointed", "n": max(1, T // 2)}]
+            cases.append({"T": T, "spec": scene(ctx.rng, T), "splits": splits, "grads": grads})
     return cases
 
 
@@ -84,6 +85,14 @@ def predicate(case, out):
         bad = sp["E"] > tol * out["scale"] or sp["H"] > tol * out["scale"] or sp["psi"] > tol * out["scale"] or sp["det"] > tol * out["dscale"]
         if bad or (sp.get("ts") and sp["ts"][-1] != out["T"]):
             return (f"split-differs:T={out['T']};pts={sp['pts']};mode={sp.get('mode', 'int')}", f"state after split/re-run {sp} differs from the single run (scale {out['scale']:.3e}, det {out['dscale']:.3e})")
+    for gr in out.get("grad_reruns", []):
+        tag = f"{gr['g']['method']}-{gr['g'].get('n')};T={out['T']}"
+        if "error" in gr:
+            return ("grad-rerun-error:" + tag, gr["error"])
+        for which in ("first", "second"):
+            d = gr[which]
+            if (gr["t1"], gr["t2"]) != (out["T"], out["T"]) or d["E"] > 1e-9 * out["scale"] or d["H"] > 1e-9 * out["scale"] or d["psi"] > 1e-9 * out["scale"] or d["det"] > 1e-9 * out["dscale"]:
+                return (f"grad-rerun-differs:{which};" + tag, f"{which} run under {gr['g']} ({'fresh arrays' if which == 'first' else 'arrays returned by the first run'}) differs from the plain run: {d} (scale {out['scale']:.3e}, det {out['dscale']:.3e})")
     if out["reset"]["dynamic_maxabs"] != 0.0 or out["reset"]["materials_diff"] != 0.0:
         return ("reset-wrong", f"reset left {out['reset']}")
     return None
